@@ -252,6 +252,8 @@ type Interp struct {
 	Bytes     [][]byte           // persisted bytes of loaded/merged segments (nil for built)
 	Nums      map[int][][]uint64 // DocumentNumbers() of merged slots
 	Outs      []W                // per-op outputs of the last scenario
+	ndict     int
+	owned     []ownedBitmap // bitmaps the scenario handed to ice (exclusions, replaced actual bitmaps)
 	persisted map[segment.Segment]bool
 	npersist  int
 	pls       map[int]segment.PostingsList
@@ -478,6 +480,21 @@ func (in *Interp) RunOp(o *Op) (out W) {
 		if o.Pre != nil {
 			aut = &prefixAutomaton{p: o.Pre}
 		}
+		// every other enumeration is interrupted after two entries by a second, complete enumeration
+		// of the SAME Dictionary object (the two iterators must not share a cursor), then continued
+		in.ndict++
+		if in.ndict%2 == 0 {
+			ents, err := dictEntriesInterleaved(d.Iterator(aut, o.Lo, o.Hi), func() error {
+				_, err := dictEntries(d.Iterator(nil, nil, nil))
+				return err
+			})
+			if err != nil {
+				return errOut(err)
+			}
+			in.Touched["interleaved_dict_iterators"]++
+			out.Append(ents)
+			break
+		}
 		ents, err := dictEntries(d.Iterator(aut, o.Lo, o.Hi))
 		if err != nil {
 			return errOut(err)
@@ -656,6 +673,31 @@ func (in *Interp) dict(slot int, f string) (segment.Dictionary, error) {
 	return d, nil
 }
 
+// dictEntriesInterleaved is dictEntries with a call of between() after the second entry.
+func dictEntriesInterleaved(it segment.DictionaryIterator, between func() error) (W, error) {
+	var ents W
+	n := 0
+	e, err := it.Next()
+	for err == nil && e != nil {
+		ents.Str(e.Term())
+		ents.Num(e.Count())
+		n++
+		if n == 2 {
+			if err := between(); err != nil {
+				return nil, err
+			}
+		}
+		e, err = it.Next()
+	}
+	if err != nil {
+		return nil, err
+	}
+	var out W
+	out.Num(uint64(n))
+	out.Append(ents)
+	return out, nil
+}
+
 func dictEntries(it segment.DictionaryIterator) (W, error) {
 	var ents W
 	n := 0
@@ -718,7 +760,38 @@ func listDocs(pl segment.PostingsList) (docs []uint64, ok bool) {
 	return docs, true
 }
 
+// ownedBitmap is a bitmap of the caller's that ice was given (an exclusion, or the
+// bitmap installed with ReplaceActual): ice may keep it but must never change it.
+type ownedBitmap struct {
+	bm   *roaring.Bitmap
+	snap []byte
+	what string
+}
+
+func (in *Interp) own(bm *roaring.Bitmap, what string) {
+	if bm == nil {
+		return
+	}
+	b, _ := bm.ToBytes()
+	in.owned = append(in.owned, ownedBitmap{bm, b, what})
+	if len(in.owned) > 12 {
+		in.owned = in.owned[len(in.owned)-12:]
+	}
+}
+
+func (in *Interp) checkOwned() {
+	for i := range in.owned {
+		b, _ := in.owned[i].bm.ToBytes()
+		if !bytes.Equal(b, in.owned[i].snap) {
+			in.fail("", "a bitmap of the caller's (%s) was changed by a later lookup: it held %d bytes of serialised content and now serialises differently (cardinality %d)",
+				in.owned[i].what, len(in.owned[i].snap), in.owned[i].bm.GetCardinality())
+			in.owned[i].snap = b
+		}
+	}
+}
+
 func (in *Interp) checkHeld() {
+	in.checkOwned()
 	for slot, h := range in.held {
 		if in.pls[slot] != h.pl {
 			delete(in.held, slot)
@@ -747,6 +820,7 @@ func (in *Interp) runIter(o *Op) (out W) {
 	var except *roaring.Bitmap
 	if !o.ExceptNil {
 		except = bitmapOf(o.Except)
+		in.own(except, "exclusion bitmap")
 	}
 	var prePL segment.PostingsList
 	if o.PLSlot > 0 {
@@ -796,6 +870,7 @@ func (in *Interp) runIter(o *Op) (out W) {
 					o.Replace = append(o.Replace, uint64(x))
 				}
 				opt.ReplaceActual(rep)
+				in.own(rep, "bitmap installed with ReplaceActual")
 				in.Touched["replace_actual"]++
 			} else {
 				o.HasReplace = false // 1-hit or empty list: nothing to replace
